@@ -127,7 +127,7 @@ def _sig_ellipsis_before_escape(case: dict, f: Failure) -> bool:
     o = dict(case["opts"])
     o.pop("ellipses", None)
     once = opts.fmt(case["text"], dict(o, ellipses=True))
-    return re.search(r"\.\.\.[^\s\w]*[ \t]*\\", once) is not None
+    return re.search(r"\.\.\.[^\s\w]*[ \t]*(?:\n[ \t>]*)?\\|\\[^\w\s][ \t]*(?:\n[ \t>]*)?\.\.\.", once) is not None
 
 
 SIGS = {"ellipsis_before_escape": _sig_ellipsis_before_escape}
